@@ -104,6 +104,12 @@ impl Subscription {
         self.observer.new_messages_available()
     }
 
+    /// Passes a wake-up on to the next consumer waiting for messages.
+    /// Used by a consumer that was woken but goes away before it pulled.
+    pub fn pass_on_wakeup(&self) {
+        self.observer.notify_new_messages_available();
+    }
+
     /// Returns a signal for when the subscription gets deleted.
     pub fn deleted(&self) -> Deleted {
         self.observer.deleted()
